@@ -147,6 +147,7 @@ static void unit_body(void *arg, int fnid)
         viol("unit u%d incarnation %d started %d-th time", a->id, a->incarnation,
              a->starts + 1);
     a->running = 1;
+    a->in_op = 0; /* a cancelled / exited incarnation never came back from its last op */
     a->starts++;
     stat_add("unit_starts", 1);
     hist(a, "start", ua->inc, fnid, 0);
